@@ -22,7 +22,7 @@ DD = "orquestra.quantum.decompositions._decomposition"
 MANIFEST = {
     "engine": "engine-M",
     "category": "proof",
-    "technique": "contract-based deductive verification: postconditions 'matrix of the produced circuit == phase x matrix of the original operation' generated from the real text of the decomposition rule and the circuit/embedding code by shadow execution over an exact trig-polynomial domain, decided for all real angles; rule chaining and numeric paths by bounded enumeration",
+    "technique": "contract-based deductive verification of rule chaining for ANY rule list and ANY operations (Engine V, induction on the number of rules: the recursive call of decompose_operation enters by the contract itself on a strictly shorter list - checked; hypothesis: every rule's production has the action of the operation where its predicate holds; conclusion: the ordered action of the result equals the action of the operation, an operation no rule applies to comes back as [operation], and decompose_operations concatenates the per-operation results in order; abstract monoid of actions with the flattening law); contract-based deductive verification: postconditions 'matrix of the produced circuit == phase x matrix of the original operation' generated from the real text of the decomposition rule and the circuit/embedding code by shadow execution over an exact trig-polynomial domain, decided for all real angles; rule chaining and numeric paths by bounded enumeration",
     "text": "Equivalence of the U3 rule is a trigonometric identity in three angles: it is decided for all real angles, for the plain gate on every qubit of a 3-qubit register and for 1 and 2 controls on several placements. The controlled case provably yields diag(I, e^{-i(phi+lambda)/2} U3), i.e. a relative phase: recorded as a known finding and pinned exactly, so any other deviation still reports. Rule chaining is checked on enumerated rule systems (bounded).",
     "note": "Trusted: exact domain reading of sympy/numpy, floats-as-reals. Bounds: register width 3, control counts 1..2, rule lists up to length 3 over a 4-rule pool.",
 }
@@ -167,6 +167,10 @@ def build(tier, seed):
     obs.append(Ob("C18.wrapped_u3", "finite", FN, wrapped_u3,
                   "U3 inside dagger / power wrappers (and look-alike rotations): the rule either leaves the operation alone or replaces it by an equivalent sequence, all angles"))
 
+    from vfw import lean
+    obs.append(lean.prelude_ob('C18', 'Euler / trigonometric rules of the U3 identity; the product of a concatenation of sequences is the product of their products (rule chaining)'))
+    from props import C18chain
+    obs.extend(C18chain.build(vprop.enum_ob("x", [], _cases_chain, _check_chain, "").run))
     obs.append(vprop.enum_ob("C18.chain.enum", FN[3:], _cases_chain, _check_chain,
                              "bounded: every rule list of length <= 3 over a pool of 4 rewrite rules on every operation list of length <= 2: result equals the "
                              "reference fold (rules in the given order on the previous rule's output, unmatched operations kept in place); empty rule list is the identity"))
